@@ -5,8 +5,10 @@ containment for every list of setting strings, region sharing iff same region va
 file-level block splitter incl. NOTE/STYLE/REGION).  Ties on every run:
   * Gen/VttTables.v regenerated from CPython's html module / str methods / ttconv (harness/gen_c11.py);
   * tokenizer M = ttconv.vtt.tokenizer.CueTextTokenizer on generated and mutated cue texts;
-  * reader M = ttconv.vtt.reader.to_model on grammar-generated files, mutated files, the bundled .vtt
-    corpus and outputs of ttconv.vtt.writer.from_model (all 8 configurations), geometry within 1e-9;
+  * reader M = ttconv.vtt.reader.to_model on grammar-generated files, mutated files, tag soups (random sequences of
+    start / end tags incl. missing, doubled, wrong-name, upper-case and stray end tags, rt inside rt, over-long
+    percentages), the bundled .vtt corpus and outputs of ttconv.vtt.writer.from_model (all 8 configurations),
+    geometry within 1e-9;
   * S (Spec/VttSpec.v) judges the code's own output on every grammar-generated file (times, region clauses,
     styled/timed runs, region sharing) and on every writer output (cues written = cues read).
 """
@@ -17,7 +19,7 @@ import gen_tables
 
 PROP = "C11"
 FINDINGS = {7: "ruby-structure"}
-CLAUSES = {1: "S printer and harness printer disagree (harness defect)", 2: "to_model raised", 3: "number of paragraphs differs from the number of cues that have a payload",
+CLAUSES = {1: "S printer and harness printer disagree, or the derivation is outside S's side condition cue_text_valid (harness defect)", 2: "to_model raised", 3: "number of paragraphs differs from the number of cues that have a payload",
            10: "begin/end differ from the printed timestamps", 20: "region leaves the root container or has a negative extent",
            21: "writing mode / text alignment / display alignment of the region is not what the cue settings call for",
            22: "the region edge fixed by the line setting is misplaced",
@@ -194,7 +196,38 @@ def p_node(n):
         return o + ">" + "".join(p_node(c) for c in n[2]) + "</" + kind + ">"
     if k == "ruby":
         return "<ruby>" + "".join("".join(p_node(c) for c in b) + "<rt>" + "".join(p_node(c) for c in r) + "</rt>" for b, r in n[1]) + "</ruby>"
+    if k == "end": return "</" + n[1] + ">"                      # an end tag that closes nothing
+    if k == "open":                                              # an element whose end tag is missing
+        kind, arg = n[1]
+        o = "<" + kind
+        if kind == "c": o += "".join("." + c for c in arg)
+        elif kind in ("lang", "v"): o += " " + esc(arg)
+        return o + ">" + "".join(p_node(c) for c in n[2])
+    if k == "rubyomit":                                          # the last </rt> omitted
+        return "<ruby>" + "</rt>".join("".join(p_node(c) for c in b) + "<rt>" + "".join(p_node(c) for c in r) for b, r in n[1]) + "</ruby>"
     raise ValueError(k)
+
+def end_ignored(ctx, name):
+    """mirror of Spec.VttSpec.end_ignored; ctx: None (top level), a tag name, "@base" or "@rt" """
+    if ">" in name or "\n" in name: return False
+    if ctx is None: return True
+    if ctx == "@base": return name != "ruby"
+    if ctx == "@rt": return name not in ("rt", "ruby")
+    return name != ctx
+
+def nodes_valid(ns, ctx=None, may_open=True):
+    """mirror of Spec.VttSpec.nodes_valid (the judge rejects derivations outside it as a harness defect)"""
+    for i, n in enumerate(ns):
+        last = i == len(ns) - 1
+        k = n[0]
+        if k == "end" and not end_ignored(ctx, n[1]): return False
+        if k == "tag" and not nodes_valid(n[2], n[1][0], False): return False
+        if k == "open" and not (may_open and last and nodes_valid(n[2], n[1][0], True)): return False
+        if k in ("ruby", "rubyomit"):
+            if k == "rubyomit" and not n[1]: return False
+            for b, r in n[1]:
+                if not nodes_valid(b, "@base", False) or not nodes_valid(r, "@rt", False): return False
+    return True
 
 def p_setting(s):
     k = s[0]
@@ -231,13 +264,15 @@ def l_node(n):
     if k == "text": return f"CText {T(n[1])}"
     if k == "ref": return "CRef (%s)" % {"named": lambda v: "RefNamed " + T(v), "dec": lambda v: f"RefDec {v}", "hex": lambda v: f"RefHex {v}"}[n[1]](n[2])
     if k == "ts": return f"CTs {l_ts(n[1])}"
-    if k == "tag":
+    if k in ("tag", "open"):
         kind, arg = n[1]
         tg = {"b": "TgB", "i": "TgI", "u": "TgU"}.get(kind) or \
             ("(TgC %s)" % L([T(c) for c in arg]) if kind == "c" else f"(TgLang {T(arg)})" if kind == "lang" else f"(TgV {T(arg)})")
-        return f"CTag {tg} {L([l_node(c) for c in n[2]])}"
-    if k == "ruby":
-        return "CRuby " + L(["(%s, %s)" % (L([l_node(c) for c in b]), L([l_node(c) for c in r])) for b, r in n[1]])
+        return f"{'CTag' if k == 'tag' else 'COpen'} {tg} {L([l_node(c) for c in n[2]])}"
+    if k in ("ruby", "rubyomit"):
+        return ("CRuby " if k == "ruby" else "CRubyOmit ") + L(["(%s, %s)" % (L([l_node(c) for c in b]), L([l_node(c) for c in r])) for b, r in n[1]])
+    if k == "end": return f"CEnd {T(n[1])}"
+    raise ValueError(k)
 LA = {"start": "LaStart", "center": "LaCenter", "end": "LaEnd"}
 PA = {"line-left": "PaLineLeft", "center": "PaCenter", "line-right": "PaLineRight"}
 CA = {"start": "CaStart", "center": "CaCenter", "end": "CaEnd", "left": "CaLeft", "right": "CaRight"}
@@ -306,14 +341,41 @@ def ms_to_ts(rng, ms, hours=None):
         return (hd, mm, ss, fr)
     return (None, mm, ss, fr)
 
+END_NAMES = ["b", "i", "u", "c", "v", "lang", "ruby", "rt", "x", "bold", "B", "I", "RT", "Ruby", "c.red", "b i", ""]
+
 class CueGen:
-    """cue-text trees; with `trig` the tree may hold constructs the recorded finding ruby-structure covers"""
+    """cue-text trees; with `trig` the tree may hold constructs the recorded finding ruby-structure covers.
+    Besides well-nested markup the trees hold end tags that close nothing (after the element they name was closed =
+    doubled, naming another element = wrong name / misnested, upper case of another name, with nothing open), elements
+    whose end tag is missing (at the right edge of the cue text) and ruby elements whose last </rt> is omitted."""
     def __init__(self, rng, begin_ms, end_ms, trig):
         self.rng, self.b, self.e, self.trig = rng, begin_ms, end_ms, trig
         self.now = begin_ms; self.n_ts = 0
 
-    def inline(self, depth, in_tag, multiline=True):
+    def stray(self, ctx):
+        """an end tag that WebVTT ignores in context ctx and that the reader's lower-case comparison does not match either"""
+        rng = self.rng
+        for _ in range(20):
+            name = rng.choice(END_NAMES)
+            if not end_ignored(ctx, name): continue
+            low = name.lower()
+            if ctx is not None and (low == ctx or (ctx == "@base" and low == "ruby") or (ctx == "@rt" and low in ("rt", "ruby"))): continue
+            return ("end", name)
+        return ("end", "x")
+
+    def tagspec(self):
+        rng = self.rng
+        kind = rng.choice(["b", "i", "u", "c", "lang", "v"])
+        if kind == "c":
+            arg = [rng.choice(COLORS + ["bg_" + c for c in COLORS] + ["loud", "x1"]) for _ in range(rng.randrange(0, 4))]
+        elif kind == "lang": arg = rng.choice(LANGS)
+        elif kind == "v": arg = rng.choice(VOICES)
+        else: arg = None
+        return (kind, arg)
+
+    def inline(self, depth, ctx, multiline=True):
         rng = self.rng; r = rng.random()
+        if r < 0.07: return self.stray(ctx)
         if depth <= 0 or r < 0.45:
             return ("text", gen_text(rng, multiline))
         if r < 0.55:
@@ -324,42 +386,58 @@ class CueGen:
         if r < 0.64 and self.now + 2 < self.e:
             self.now = rng.randrange(self.now + 1, self.e); self.n_ts += 1
             return ("ts", ms_to_ts(rng, self.now))
-        kind = rng.choice(["b", "i", "u", "c", "lang", "v"])
-        if kind == "c":
-            arg = [rng.choice(COLORS + ["bg_" + c for c in COLORS] + ["loud", "x1"]) for _ in range(rng.randrange(0, 4))]
-        elif kind == "lang": arg = rng.choice(LANGS)
-        elif kind == "v": arg = rng.choice(VOICES)
-        else: arg = None
-        return ("tag", (kind, arg), self.nodes(depth - 1, True, multiline))
+        spec = self.tagspec()
+        return ("tag", spec, self.nodes(depth - 1, spec[0], multiline))
 
-    def nodes(self, depth, in_tag, multiline=True):
-        return [self.inline(depth, in_tag, multiline) for _ in range(self.rng.randrange(1, 4))]
+    def nodes(self, depth, ctx, multiline=True):
+        out = []
+        for _ in range(self.rng.randrange(1, 4)):
+            n = self.inline(depth, ctx, multiline); out.append(n)
+            if n[0] == "tag" and self.rng.random() < 0.08 and end_ignored(ctx, n[1][0]) and n[1][0] != ctx:
+                out.append(("end", n[1][0]))                                   # doubled end tag
+        return out
 
     def ruby(self):
         rng = self.rng; segs = []
         for _ in range(rng.randrange(1, 3)):
             base = [("text", gen_text(rng, False))]
             if rng.random() < 0.2: base.append(("ref", "named", "amp"))
+            if rng.random() < 0.12: base.append(self.stray("@base"))            # ignored end tags around the base text split nothing
+            if rng.random() < 0.06: base.insert(0, self.stray("@base"))
             if self.trig and rng.random() < 0.15: base = [("tag", ("b", None), [("text", "x")])]
-            rt = self.nodes(1, True, multiline=False) if rng.random() < 0.5 else [("text", gen_text(rng, False))]
+            rt = self.nodes(1, "@rt", multiline=False) if rng.random() < 0.5 else [("text", gen_text(rng, False))]
             if self.trig and rng.random() < 0.1 and self.now + 2 < self.e:      # a timestamp inside the base: recorded finding
                 self.now = rng.randrange(self.now + 1, self.e); base = [base[0], ("ts", ms_to_ts(rng, self.now)), ("text", "z")]
+            elif self.trig and rng.random() < 0.1:                              # an ignored end tag between two texts of a base splits it too
+                base = [base[0], self.stray("@base"), ("text", "z")]
             segs.append((base, rt))
-        return ("ruby", segs)
+        return ("rubyomit" if rng.random() < 0.3 else "ruby", segs)
+
+    def open_chain(self, depth):
+        """an element whose end tag is missing, holding closed content and possibly another unclosed element at its end"""
+        rng = self.rng; spec = self.tagspec()
+        cs = self.nodes(2, spec[0]) if rng.random() < 0.8 else []
+        if depth > 0 and rng.random() < 0.4: cs.append(self.open_chain(depth - 1))
+        return ("open", spec, cs)
 
     def payload(self):
         rng = self.rng; out = []
         for _ in range(rng.randrange(1, 5)):
             r = rng.random()
             if r < 0.12: out.append(self.ruby())
-            elif r < 0.15 and self.trig: out.append(("tag", (rng.choice(["b", "v"]), "Tom" ), [self.ruby()]) if False else ("tag", ("b", None), [self.ruby()]))
-            else: out.append(self.inline(3, False))
+            elif r < 0.15 and self.trig: out.append(("tag", ("b", None), [self.ruby()]))
+            else: out.append(self.inline(3, None))
             if rng.random() < 0.3: out.append(("text", "\n"))
+        if rng.random() < 0.15:
+            while out and out[-1] == ("text", "\n"): out.pop()
+            if self.trig and rng.random() < 0.2: out.append(("open", ("i", None), [self.ruby()]))
+            else: out.append(self.open_chain(2))
         return out
 
 def payload_ok(pl):
     """the printed payload is a valid WebVTT cue payload: no blank line, no leading/trailing line terminator, no `-->`"""
     s = "".join(p_node(n) for n in pl)
+    if not nodes_valid(pl): return False
     if not s or s != s.strip("\r\n") or "-->" in s: return False
     return all(l.strip() != "" for l in s.split("\n"))
 
@@ -458,6 +536,12 @@ MUT = list("<>&;./ \t\n:-%,0123456789abcirtuvy#x") + ["</b>", "<rt>", "<ruby>", 
                                                        "NOTE ", "STYLE", "line:", "position:", "size:", "vertical:lr", "align:", "33.5%", "-0", "%", "WEBVTT", "\\n\\r", " ", " "]
 MUT += ["&lrm;", "&apos;", "&ampx;", "&zz;", "&#1;", "&", "<v a&amp;b>", "<lang x&lt;y>", "<c.a.b R&D>", "101%", "100.5%", "100.4%", "150%",
         "line:-1", "line:0", "line:-30", "line:99,center", "size:98%", "position:0%", "position:100%,line-left", "REGION", "NOTE\n"]
+# percentages with more digits than a float holds (they read as infinity: out of range like any value above 100) and
+# long ones whose value is clear of every rounding boundary
+LONG_PCT = ["9" * 400 + "%", "1" + "0" * 320 + "%", "5" * 330 + ".5%", "100." + "0" * 350 + "%", "99." + "9" * 350 + "%", "0." + "0" * 400 + "%",
+            "12." + "3" * 330 + "%", "1e400%", "9" * 310 + "%", "9" * 308 + "%"]
+MUT += ["size:" + LONG_PCT[0], "position:" + LONG_PCT[1], "line:" + LONG_PCT[2] + ",center", "size:" + LONG_PCT[4], "line:" + LONG_PCT[8]]
+MUT += ["</i>", "</B>", "</RUBY>", "</rt>", "<RT>", "</c>", "</v>", "</x>", "</>", "<b>", "<i>"]
 def mutate(rng, s):
     s = list(s)
     for _ in range(rng.randrange(1, 5)):
@@ -469,6 +553,40 @@ def mutate(rng, s):
             j = rng.randrange(len(s) + 1) if s else 0
             a, b = sorted((i, j)); s[a:b] = []
     return "".join(s)
+
+SOUP = ["<ruby>", "</ruby>", "<rt>", "</rt>", "<rt>", "</rt>", "<b>", "</b>", "<i>", "</i>", "<u>", "</u>", "<c.red>", "</c>", "<v Tom>", "</v>",
+        "<lang en>", "</lang>", "<B>", "</B>", "</I>", "<RT>", "</RT>", "</RUBY>", "<Ruby>", "<rubyx>", "</rubyx>", "<rtx>", "</rtx>", "<x>", "</x>", "</>",
+        "</c.red>", "<\u00c9>", "</\u00e9>", "<\u0130>", "</i\u0307>", "x", "y z", "w", "&amp;", "<00:00:05.000>", "<00:00:07.500>", "\nq"]
+def gen_ruby_soup(rng):
+    """tokens steered by a rough copy of the open-tag stack so that most sequences get past the ruby structure checks:
+    rt inside rt and inside spans of an rt, end tags of every kind at every depth, </ruby> over open elements"""
+    toks = ["<ruby>"]; stack = ["ruby"]
+    for _ in range(rng.randrange(2, 18)):
+        top = stack[-1] if stack else None
+        if top is None:
+            pool = ["x", "</ruby>", "</rt>", "<b>", "</b>", "<rt>", "y"] + (["<ruby>"] if "ruby" not in stack else [])
+        elif top == "ruby":
+            pool = ["a", "b c", "<rt>", "<rt>", "<rt>", "</ruby>", "</rt>", "</x>", "</RUBY>", "<00:00:05.000>"] + (["<b>", "\nq"] if rng.random() < 0.1 else [])
+        else:
+            pool = ["x", "y", "<rt>", "</rt>", "</rt>", "</ruby>", "<b>", "</b>", "<i>", "</i>", "</x>", "</RT>", "</Ruby>", "<00:00:06.000>"] + \
+                (["<ruby>", "\nq"] if rng.random() < 0.1 else [])
+        t = rng.choice(pool); toks.append(t)
+        if t.startswith("</"):
+            name = t[2:-1].lower()
+            if stack and stack[-1] == name: stack.pop()
+            elif len(stack) > 1 and stack[-2] == name == "ruby" and stack[-1] == "rt": stack.pop(); stack.pop()
+        elif t.startswith("<") and not t[1].isdigit():
+            stack.append(t[1:-1].lower())
+    return toks
+
+def gen_soup(rng):
+    """one cue whose text is a random sequence of start tags, end tags and text: every kind of unmatched end tag"""
+    if rng.random() < 0.5:
+        toks = gen_ruby_soup(rng)
+    else:
+        toks = [rng.choice(SOUP) for _ in range(rng.randrange(1, 14))]
+    txt = "".join(toks).strip("\n") or "x"
+    return "WEBVTT\n\n00:00:01.000 --> 00:00:09.000\n" + txt + "\n"
 
 HAND = ["", "WEBVTT", "WEBVTT\n", "\n", "WEBVTT\n\n00:01.000 --> 00:02.000\n", "WEBVTT\n\n00:01.000 --> 00:02.000\n\n",
         "WEBVTT\n\n00:01.000 --> 00:02.000\nfirst\n\n00:03.000 --> 00:04.000 line:0\n\n00:05.000 --> 00:06.000\nthird\n",
@@ -488,6 +606,11 @@ HAND = ["", "WEBVTT", "WEBVTT\n", "\n", "WEBVTT\n\n00:01.000 --> 00:02.000\n", "
         "WEBVTT\n\n00:10.000 --> 00:20.000\n<00:12.000>a<00:15.000>b<b>c<00:11.000>d</b>e<00:09.000>f<00:25.000>g<0:1>h\n",
         "WEBVTT\n\n00:10.000 --> 00:20.000\nx<00:12.000><ruby>a<rt>b</rt></ruby>\n\n00:20.000 --> 00:30.000\n<ruby>a<00:22.000>b<rt>c</rt></ruby>\n",
         "WEBVTT\n\n00:01.000 --> 00:02.000\n<rt>x</rt>y<ruby>a<rt>b</rt></ruby><rt>z</rt>\n", "WEBVTT\n\n00:01.000 --> 00:02.000\n<v a&lrm;b&zz; c&amp>x</v>&apos;&ampx;&#;&\n",
+        "WEBVTT\n\n" + "".join(f"00:0{k}.000 --> 00:0{k + 1}.000 {kind}:{v}\nx\n\n" for k, (kind, v) in enumerate(zip(["size", "position", "line", "size", "size", "size", "position", "size", "line", "size"], LONG_PCT))),
+        "WEBVTT\n\n00:01.000 --> 00:02.000\n<b>x</i>y</b>z</b>w\n\n00:02.000 --> 00:03.000\n<b><i>x</b>y</i>z\n\n00:03.000 --> 00:04.000\n<B>x</b>y<i>z</I>w<bold>v</b>u</bold>t\n",
+        "WEBVTT\n\n00:01.000 --> 00:02.000\n<ruby>a<rt>b</ruby>c\n\n00:02.000 --> 00:03.000\n<ruby>a<rt>b<rt>c</rt>d</rt>e</ruby>f\n\n00:03.000 --> 00:04.000\n<ruby>a<rt>b<i>c<rt>d</i>e</rt>f</i>g</ruby>h\n",
+        "WEBVTT\n\n00:01.000 --> 00:02.000\n<ruby>a</b><rt>b</rt></rt>c<rt>d</ruby></ruby>e\n\n00:02.000 --> 00:03.000\n<rubyx>a<rtx>b</rubyx>c\n\n00:03.000 --> 00:04.000\n<ruby>a<rt>b<b>c</ruby>d\n",
+        "WEBVTT\n\n00:01.000 --> 00:02.000\n<\u00c9>x</\u00e9>y<\u0130>dotted</i\u0307>z<\u212a>k</k>w\n",
         "WEBVTT\n\nNOTE\nplain comment\n\nNOTE\twith tab\n00:01.000 --> 00:02.000\nnot a comment\n\nSTYLEX\n00:03.000 --> 00:04.000\nskipped\n\nREGION\nid:a\n\n00:05.000 --> 00:06.000\nshown\n"]
 
 
@@ -590,7 +713,8 @@ def main():
         run.violation("table translator failed closed: " + "; ".join(errors), dict(kind="translator", errors=errors), False)
         return run.finish()
     if changed: run.log("tables regenerated:", changed)
-    ok, log = run.build(["Proofs/C11/Tokenizer.vo", "Proofs/C11/Time.vo", "Proofs/C11/Region.vo", "Proofs/C11/Tree.vo", "Proofs/C11/Lines.vo", "Model/VttCases.vo"],
+    ok, log = run.build(["Proofs/C11/Tokenizer.vo", "Proofs/C11/Time.vo", "Proofs/C11/Region.vo", "Proofs/C11/Tree.vo", "Proofs/C11/Lines.vo", "Proofs/C11/Outcome.vo",
+                         "Model/VttCases.vo"],
                         clean=(run.tier == "thorough"))
     proofs_ok = ok and run.theorems()
     if not ok: run.proof_log = log[-2500:]
@@ -608,6 +732,7 @@ def main():
     n_mut = 2500 if thorough else 120
     n_wr = 1300 if thorough else 80
     n_tok = 20000 if thorough else 1000
+    n_soup = 6000 if thorough else 400
 
     # ---- grammar-derived files: cue-setting combinations in a shuffled enumeration -----------------------
     order = list(range(N_COMBOS)); rng.shuffle(order)
@@ -655,11 +780,14 @@ def main():
                 except (UnicodeDecodeError, OSError):
                     continue
                 # outside the model's stated domain: non-ASCII digits; numbers of 16+ digits (binary floating point is then inexact)
-                if len(s) < 6000 and not re.search(r"[٠-٩۰-۹०-९０-９]", s) and not re.search(r"\d{16,}", s): corpus.append(s)
+                # … and tag names holding U+03A3 (str.lower() is context-sensitive there: final sigma)
+                if len(s) < 6000 and not re.search(r"[٠-٩۰-۹०-९０-９]", s) and not re.search(r"\d{16,}", s) and not re.search("<[^>]*\u03a3", s): corpus.append(s)
                 else: corpus_skipped.append(fn)
     mut += corpus
     while len(mut) < n_mut + len(HAND) + len(corpus):
         mut.append(mutate(rng, rng.choice(texts)))
+    soup = [gen_soup(rng) for _ in range(n_soup)]
+    mut += soup
     # ---- writer outputs -------------------------------------------------------------------------------
     written = []
     configs = [VTTWriterConfiguration(line_position=a, text_align=b, cue_id=c) for a in (False, True) for b in (False, True) for c in (False, True)]
@@ -795,10 +923,10 @@ def main():
     from collections import Counter
     hist = Counter(); tags = Counter(); out_hist = Counter()
     def walk(n):
-        tags[n[0] if n[0] != "tag" else "tag:" + n[1][0]] += 1
-        if n[0] == "tag":
+        tags[n[0] if n[0] not in ("tag", "open") else n[0] + ":" + n[1][0]] += 1
+        if n[0] in ("tag", "open"):
             for c in n[2]: walk(c)
-        if n[0] == "ruby":
+        if n[0] in ("ruby", "rubyomit"):
             for b, r in n[1]:
                 for c in b + r: walk(c)
     ncues = 0
@@ -813,6 +941,20 @@ def main():
     for _, sh in [(k, s) for k, _, s in files if k != "tok"]:
         for info, _ in sh:
             o = info["o"]; out_hist["raised " + o[1] if o[0] == "raised" else "ok"] += 1
+    # tag soups: how many end tags they hold and how the reader took them (measured with a reference count of the
+    # open-tag stack: an end tag either names the innermost open tag, or is </ruby> over an open rt, or is ignored)
+    soup_hist = Counter(); soup_set = set(soup)
+    for info, _ in mut_cases:
+        if info["txt"] not in soup_set: continue
+        o = info["o"]; soup_hist["raised " + o[1] if o[0] == "raised" else "ok"] += 1
+        stack = []
+        for mt in re.finditer(r"<(/?)([^>\s.]*)[^>]*>", info["txt"].split("\n", 3)[3]):
+            name = mt.group(2).lower()
+            if name[:1].isdigit(): continue
+            if not mt.group(1): stack.append(name); soup_hist["start tags"] += 1
+            elif stack and stack[-1] == name: stack.pop(); soup_hist["end tags naming the innermost open tag"] += 1
+            elif len(stack) > 1 and stack[-2] == name and name.startswith("ruby") and stack[-1].startswith("rt"): soup_hist["end tags </ruby> over an open rt (approx.)"] += 1; stack.pop(); stack.pop()
+            else: soup_hist["end tags naming no / another open tag"] += 1
     # distinct inputs that are non-trivial: files holding at least one timing line, cue texts holding markup or a reference
     # measured on the code's output: pairs of cues of one file whose boxes coincide (1e-9) and that do / do not share a region
     box_pairs = _Counter()
@@ -837,16 +979,20 @@ def main():
                         "(every second thorough file) a group of 2-4 cues whose settings differ in one component only - line alignment, text alignment, "
                         "writing mode, position alignment, the form of the line value, or settings whose boxes coincide only after the box is limited to "
                         "the root container (size against position, line numbers beyond the grid) - while their boxes coincide; cue-text trees with "
-                        "b/i/u/c.class/lang/v nested to depth 3 (voice and language annotations holding &, <, > and reference-like text), ruby/rt, "
+                        "b/i/u/c.class/lang/v nested to depth 3 (voice and language annotations holding &, <, > and reference-like text), ruby/rt "
+                        "(last </rt> present or omitted), end tags that close nothing (doubled, wrong name, upper case of another name, nothing open; "
+                        "judged by S as ignored), elements whose end tag is missing at the end of the cue text, "
                         "named (amp lt gt nbsp lrm rlm) and numeric character references, any number of inline timestamps inside and outside tags, "
                         "multi-line payloads; NOTE blocks holding lines with -->, STYLE and REGION blocks), each printed by the harness and "
-                        "re-printed by S inside Coq; mutated copies, hand-written malformed files and the bundled .vtt corpus (model = code "
-                        "only); outputs of ttconv.vtt.writer.from_model over random documents built with the model API under its 8 "
+                        "re-printed by S inside Coq; mutated copies, hand-written malformed files (misnested / upper-case / stray end tags, rt inside rt, "
+                        "percentages of 300-400 digits), tag soups (one cue of 1-18 random start tags, end tags and texts, half of them ruby soups steered past the ruby structure checks: rt inside rt, </ruby> over open elements) "
+                        "and the bundled .vtt corpus (model = code only); outputs of ttconv.vtt.writer.from_model over random documents built with the model API under its 8 "
                         "configurations (model = code, and cues written = cues read); cue texts and mutated cue texts through the tokenizer. "
                         "distinct_nontrivial = number of distinct file texts containing a timing line plus distinct cue texts containing markup or a "
                         "character reference (measured).",
                    samples=[dict(file=texts[0][:400]), dict(cue_text=cue_texts[-1]), dict(written=written[0][0][:300])],
-                   files=dict(grammar=len(gram_cases), mutated_and_corpus=len(mut_cases), corpus=len(corpus), corpus_skipped=corpus_skipped, writer_outputs=len(wr_cases), cue_texts=len(tok_cases)),
+                   files=dict(grammar=len(gram_cases), mutated_and_corpus=len(mut_cases) - len(soup), tag_soups=len(soup), corpus=len(corpus), corpus_skipped=corpus_skipped, writer_outputs=len(wr_cases), cue_texts=len(tok_cases)),
+                   tag_soup_histogram=dict(soup_hist),
                    cues=ncues, setting_combinations_covered=len(combos_seen), setting_combinations_total=N_COMBOS,
                    sibling_groups=dict(sib_hist), coinciding_box_pairs=dict(box_pairs),
                    block_histogram=dict(hist), cue_node_histogram=dict(tags), outcome_histogram=dict(out_hist),
@@ -855,7 +1001,9 @@ def main():
                    s_failures_covered_by_findings={FINDINGS[k]: len(v) for k, v in known_hits.items()})
     run.assumptions += ["region geometry: the code computes in binary floating point, the model in Q; compared within 1e-9 percent; S allows 1e-6",
                         "region identity: the code compares floats, the model rationals; regions of the code that agree within 1e-9 are merged before comparison (count in coverage.regions_split_by_float_rounding)",
-                        "round(float(s)) in parse_vtt_pct is modelled as exact half-even rounding (equal below 16 significant digits); \\d as ASCII digits",
+                        "round(float(s)) in parse_vtt_pct is modelled as exact half-even rounding (equal below 16 significant digits and for every literal above 101, however long); \\d as ASCII digits",
+                        "str.lower() of tag names: complete generated table; the context-sensitive final sigma (U+03A3) is outside the model (corpus files with it in a tag are skipped)",
+                        "end tags are compared in lower case by the reader; S (WebVTT) compares exactly: grammar-derived cue texts never hold an end tag that differs from the enclosing element's name in case only (the mutated and soup streams do, model = code only)",
                         "files are read through io.StringIO (no newline translation), as the check feeds them",
                         "S (Spec/VttSpec.v) is my reading of WebVTT sections 4, 6, 7 restricted to what the property states; the 23-row / 40-column grid is the reader's documented convention",
                         "harness/c11.py maps ttconv objects to the outcome literal (doc_view / elem_lit) and fails the case on any attribute it cannot represent"]
